@@ -807,7 +807,7 @@ def iterate(eng, st, v):
             yield st, keys
         else:
             yield from iterate(eng, st, c.keys)
-    elif isinstance(c, ZipSeq):
+    elif isinstance(c, (ZipSeq, EnumSeq)):
         yield st, c
     elif isinstance(c, IterView):
         yield from c.items(eng, st)
@@ -1239,6 +1239,20 @@ def _len(eng, st, args, kw, node):
             yield s, len(c)
         elif isinstance(c, SSeq):
             yield s, c.length()
+        elif isinstance(c, SSet) and c.keys is None:
+            # cardinality of an unordered finite set: uninterpreted, constrained by the two facts the code can observe
+            # (non-negative; zero exactly for the empty set)
+            asort = z3.ArraySort(c.tk.z3sort(), z3.BoolSort())
+            cardf = _uf(f"card<{c.tk.z3sort()}>", asort, z3.IntSort())
+            key = ("card", str(c.tk.z3sort()))
+            if key not in eng.__dict__.setdefault("_axiom_keys", set()):
+                eng._axiom_keys.add(key)
+                S = z3.Const(fresh_name("S!card"), asort)
+                eng.axioms.append(z3.ForAll([S], z3.And(cardf(S) >= 0, (cardf(S) == 0) == (S == z3.K(c.tk.z3sort(), z3.BoolVal(False)))),
+                                            patterns=[cardf(S)]))
+            card = cardf(c.has)
+            s.assume(card >= 0)
+            yield s, SInt(card)
         elif isinstance(c, (SMap, SSet)):
             if c.keys is None:
                 raise Unsupported("len of unordered symbolic map/set")
@@ -1545,7 +1559,18 @@ def _enumerate(eng, st, args, kw, node):
         if isinstance(items, list):
             yield s, tuple((i + start, x) for i, x in enumerate(items))
         else:
-            raise Unsupported("enumerate over symbolic-length sequence (unrolled loops only)")
+            yield s, EnumSeq(items, start)
+
+
+class EnumSeq:
+    """enumerate(seq, start) over a symbolic-length sequence: element i is (start + i, seq[i])"""
+
+    def __init__(self, seq, start=0):
+        self.seq, self.start, self.n = seq, start, seq.n
+
+    def at(self, i):
+        idx = i + self.start if not (isinstance(i, int) and isinstance(self.start, int)) else i + self.start
+        return (idx, self.seq.at(i))
 
 
 @builtin(zip)
